@@ -404,6 +404,22 @@ func exec(op string) string {
 		}
 		_, impl, _ := runCtl(label, append([]string{}, w[2:]...), nil)
 		return impl
+	case "retry":
+		n, fates := -1, ""
+		for _, x := range w[1:] {
+			if strings.HasPrefix(x, "n=") {
+				n, _ = strconv.Atoi(strings.TrimPrefix(x, "n="))
+			}
+			if strings.HasPrefix(x, "fates=") {
+				fates = strings.TrimPrefix(x, "fates=")
+			}
+		}
+		if n < 0 || fates == "" {
+			return "bad-op"
+		}
+		return runRetry(label, n, fates)
+	case "retryobs":
+		return "accept"
 	case "ctlunit":
 		if len(w) != 3 {
 			return "bad-op"
@@ -720,6 +736,33 @@ func main() {
 		out.Case("ctlunit hb close", runCtlUnit("hb"), "ctlunit/heartbeat-started-first", true)
 		out.Case("ctlunit close hb", runCtlUnit("close"), "ctlunit/close-before-the-heartbeat-goroutine-runs", true)
 		lap("controlconn")
+		// 8. the reconnection policy's retry loop inside hostConnPool.connect(): GetMaxRetries() 0..4, scripted attempt fates
+		for i := 0; i < 16*mult && atomic.LoadInt64(&failures) < 2; i++ {
+			n := r.Intn(5)
+			if i < 5 {
+				n = i
+			}
+			fates := ""
+			for j, m := 0, r.Intn(5); j < m; j++ {
+				fates += string("ottp"[r.Intn(4)])
+			}
+			if fates == "" {
+				fates = "-"
+			}
+			line := runRetry(fmt.Sprintf("rt%d", i), n, fates)
+			if strings.HasPrefix(line, "fatal") {
+				fmt.Fprintln(os.Stderr, line)
+				os.Exit(3)
+			}
+			out.Case(fmt.Sprintf("retry n=%d fates=%s", n, fates), line, fmt.Sprintf("retry/maxretries%d", n), true)
+			if n >= 1 { // n = 0 is what C17_connect_conn_or_error_partial excludes (KF-C17-5)
+				var d, z int
+				var rs, pk string
+				fmt.Sscanf(strings.NewReplacer("res=", "", "dials=", "", "conns=", "", "nil=", "", "pick=", "").Replace(line), "%s %d %d %d %s", &rs, &d, new(int), &z, &pk)
+				out.Case(fmt.Sprintf("retryobs n=%d dials=%d nil=%d pick=%s", n, d, z, pk), "accept", "retryobs", true)
+			}
+		}
+		lap("retry")
 	}
 	// 1. debouncer stop races (the defect repaired by the fix commit must not come back). Run LAST: each round
 	// left a goroutine parked on a listener nobody served any more (refreshNow after stop) on a tree without the fix
